@@ -3,7 +3,10 @@ import PyxModel.Sql.Wire
 
 /-! driver for `(c12 (uc …) "text" …)`: a sequence of `input` calls on one loader, then a build.
     answer: `((accepted|parsing …) (stmt …) build-outcome (reals (text neg micro) …))`; the last part lists what
-    `float()` reads from every INSERT value that has the form of a number (in statement order, duplicates kept) -/
+    `float()` reads from every INSERT value that has the form of a number (in statement order, duplicates kept);
+    then `(tokens (hand rx) …)`: per text the token stream of the hand scanners and that of the generic regex engine on the
+    parse trees generated from the `t_*` regexes (`illegal` = `t_error`; `unknown-regex` when the generated trees are not
+    the modelled ones, `skipped` beyond `rxLimit` characters) -/
 namespace Pyx.Driver.C12
 open Pyx Pyx.Sexp Pyx.Sql Pyx.Sql.Wire
 
@@ -18,7 +21,8 @@ def run (u : UC) (texts : List Text) : Sexp :=
         | some (.real neg micro) => some (list [txt v, sym (if neg then "T" else "F"), ofNat micro])
         | _ => none
     | _ => []
-  list [list outs.reverse, list (l.statements.map stmtSexp), outcomeSexp (l.build u), list (sym "reals" :: reals)]
+  list [list outs.reverse, list (l.statements.map stmtSexp), outcomeSexp (l.build u), list (sym "reals" :: reals),
+    list (sym "tokens" :: texts.map (lexBoth u))]
 
 def handle : List Sexp → Option Sexp
   | sym "c12" :: list (sym "uc" :: rows) :: texts => (ucOf? rows).map (fun u => run u (asTexts texts))
